@@ -82,6 +82,26 @@ theorem C05_float_lexer_value_is_reader_value (digits scale : Nat) :
     Dbl.ofDecimal false digits scale = Dbl.decToDbl digits (-(scale : Int)) :=
   Dbl.ofDecimal_eq_decToDbl digits scale
 
+/-- **a decimal literal of ANY length denotes the nearest double of its exact value, ties to even.**  The DSL literal with the digit string
+    `digits` and `scale` fraction digits (value `digits / 10^scale`, however many digits that is) is converted to the binary64 value that
+    `Dbl.RSpec` describes: `r = Q·2^k` with `k` the ulp exponent of the exact value, `Q` the integer nearest to `value / 2^k`, the even one on
+    a tie, gradual underflow at `2^-1074`; a finite `Dbl` when `r < 2^1024`, `+inf` otherwise.  No digit is ignored: the statement is about the
+    exact rational.  (The correspondence side is `harness/props/c05.py: long_decimals` — literals of up to 6000 digits on, just above and just
+    below the midpoint of two adjacent doubles.) -/
+theorem C05_float_literal_correctly_rounded (digits scale : Nat) (hd : digits ≠ 0) :
+    ∃ r : ℚ, Dbl.RSpec ((digits : ℚ) / ((10 ^ scale : Nat) : ℚ)) r ∧
+      ((r < 2 ^ (1024 : Int) ∧ ∃ m' e', Dbl.ofDecimal false digits scale = Dbl.fin m' e' ∧ 0 ≤ m' ∧ (m' : ℚ) * 2 ^ e' = r) ∨
+       ((2 : ℚ) ^ (1024 : Int) ≤ r ∧ Dbl.ofDecimal false digits scale = Dbl.pinf)) :=
+  Dbl.roundRat_spec digits (10 ^ scale) hd (by positivity)
+
+/-- the rounding is a function of the exact value: the rounded value `RSpec` describes is unique -/
+theorem C05_float_literal_rounding_unique {v r1 r2 : ℚ} (h1 : Dbl.RSpec v r1) (h2 : Dbl.RSpec v r2) : r1 = r2 :=
+  Dbl.RSpec_unique h1 h2
+
+/-- non-vacuity (a concrete literal, evaluated by the kernel): `0.5` is the double `2^-1` and `0.1` is `3602879701896397 · 2^-55` -/
+example : (match Dbl.norm (Dbl.ofDecimal false 5 1) with | .fin m e => m == 1 && e == -1 | _ => false) = true := by decide +kernel
+example : (match Dbl.norm (Dbl.ofDecimal false 1 1) with | .fin m e => m == 3602879701896397 && e == -55 | _ => false) = true := by decide +kernel
+
 /-! ### (B) the text: `repr` is read back -/
 
 /-- **the text of `repr` reads back.**  For a non-zero finite double whose absolute value is a
